@@ -33,7 +33,7 @@ func init() {
 		ID:         "C18",
 		Title:      "Knapsack, subset-sum solvers and maximal-clique enumeration are exact",
 		Quick:      30000,
-		Thorough:   300000,
+		Thorough:   150000,
 		Gen:        gen,
 		Corpus:     corpus,
 		Impl:       impl,
